@@ -82,7 +82,7 @@ def run_free(chk, prop, tier, replay_set=None):
     """statement-level exhaustive layouts from FreeForm.tla"""
     layouts.gen_tla(os.path.join(common.SPECS, "SourceForm_gen.tla"))
     sets = [s for s in layouts.SETS if replay_set is None or s[0] == replay_set]
-    mb, mx = (2, 1) if tier == "quick" else (3, 2)
+    mb, mx = (2, 1) if tier == "quick" else (2, 2)
     jobs = []
     for name, stmts, ctx in sets:
         cfg = os.path.join(chk.work, "FreeForm_%s.cfg" % name)
@@ -109,8 +109,9 @@ def run_free(chk, prop, tier, replay_set=None):
             chk.violation({"clause": "spec-" + viol}, "TLC: %s of FreeForm.tla violated for statement set %s" % (viol, name), {"set": name})
         # quick: replay a deterministic sample
         beh.sort(key=lambda b: json.dumps(b["lines"]))
-        cap = 900 if tier == "quick" else 10 ** 9
+        cap = 900 if tier == "quick" else 20000        # layouts replayed per statement set (a deterministic, evenly spaced sample of all TLC found)
         if len(beh) > cap:
+            chk.cov["layout_sets_sampled"] = chk.cov.get("layout_sets_sampled", 0) + 1
             step = len(beh) / float(cap)
             beh = [beh[int(i * step)] for i in range(cap)]
         lays = [{"lines": ["".join(l) for l in b["lines"]], "spans": b["spans"], "cmts": b["cmts"], "nb": b["nb"]} for b in beh]
@@ -238,7 +239,7 @@ def work_fixed(case):
 def run_fixed(chk, tier, replay_set=None):
     layouts.gen_tla(os.path.join(common.SPECS, "SourceForm_gen.tla"))
     sets = [s for s in layouts.SETS if replay_set is None or s[0] == replay_set]
-    mb, mx, cc = (2, 1, "CC2") if tier == "quick" else (3, 2, "CC5")
+    mb, mx, cc = (2, 1, "CC2") if tier == "quick" else (2, 2, "CC5")
     jobs = []
     for name, stmts, ctx in sets:
         cfg = "_FixedForm_%s_%s.cfg" % (name, tier)
@@ -260,8 +261,9 @@ def run_fixed(chk, tier, replay_set=None):
         if viol:
             chk.violation({"clause": "spec-" + viol}, "TLC: %s of FixedForm.tla violated for statement set %s" % (viol, name), {"set": name})
         beh.sort(key=lambda b: json.dumps(b["lines"]))
-        cap = 900 if tier == "quick" else 10 ** 9
+        cap = 900 if tier == "quick" else 20000        # layouts replayed per statement set (a deterministic, evenly spaced sample of all TLC found)
         if len(beh) > cap:
+            chk.cov["layout_sets_sampled"] = chk.cov.get("layout_sets_sampled", 0) + 1
             step = len(beh) / float(cap)
             beh = [beh[int(i * step)] for i in range(cap)]
         lays = [{"lines": ["".join(l) for l in b["lines"]], "spans": b["spans"], "cmts": b["cmts"], "nb": b["nb"]} for b in beh]
@@ -324,7 +326,7 @@ def run(prop, tier=None, replay=None):
         if not replay:
             program_fixed(chk, tier)
             chk.phase("replay-programs")
-        chk.cov["exhaustive"] = tier != "quick"
+        chk.cov["exhaustive"] = tier != "quick" and not chk.cov.get("layout_sets_sampled") and not chk.cov.get("layout_sets_sampled")
         chk.cov["rule"] = ("layouts = behaviours of FixedForm.tla for 12 statement sets (every wrap position incl. inside tokens and literals x continuation character x comment lines "
                            "between x label adjustment x trailing comment); whole generated programs rendered in fixed form with three wrap widths; distinct_nontrivial = distinct texts")
         chk.assumptions = ["Decode in FixedForm.tla is the statement of F2008 3.3.3", "no physical line ends in a significant blank (class restriction, DESIGN.md 4.3)"]
@@ -340,7 +342,7 @@ def run(prop, tier=None, replay=None):
     if prop == "C12" and not replay:
         reader_walks(chk, tier)
         chk.phase("replay-walks")
-    chk.cov["exhaustive"] = tier != "quick"
+    chk.cov["exhaustive"] = tier != "quick" and not chk.cov.get("layout_sets_sampled")
     chk.cov["rule"] = ("layouts = behaviours of FreeForm.tla for 12 statement sets (every break position incl. inside tokens and character literals x leading & x trailing comment x "
                        "intervening blank/comment lines x optional blanks x ';' joins, bounded by MaxBreaks/MaxExtras); quick replays a stride sample of at most 900 per set; "
                        "distinct_nontrivial = distinct physical texts")
